@@ -240,7 +240,19 @@ def make_canary(text, fns):
             k = lines[i].find('/*@-*/{')
             if k >= 0:
                 k += len('/*@-*/{')
-                lines[i] = lines[i][:k] + ' proof { assert(false); } ' + lines[i][k:]
+                # `hide(...)` must stay the first statement of a body: put the canary after any leading hide statements
+                j, kk = i, k
+                while True:
+                    rest = lines[j][kk:]
+                    stripped = rest.replace('/*@+*/', '').strip()
+                    if stripped == '' and j + 1 < len(lines) and j < r['unit_end_line']:
+                        j += 1; kk = 0
+                        continue
+                    m = re.match(r'(\s*(?:/\*@\+\*/)?\s*)((?:hide\([^;]*\);\s*)+)', rest)
+                    if m:
+                        kk += m.end()
+                    break
+                lines[j] = lines[j][:kk] + ' proof { assert(false); } ' + lines[j][kk:]
                 break
     return '\n'.join(lines)
 
